@@ -232,3 +232,35 @@ func TestMeta(t *testing.T) {
 	b, _ := json.Marshal(map[string]interface{}{"rule": p.Rule, "assumptions": p.Assumptions})
 	fmt.Printf("META %s\n", b)
 }
+
+// TestShort prints the one-line rendering of a saved case.
+func TestShort(t *testing.T) {
+	path := os.Getenv("VERIF_SHORT")
+	if path == "" {
+		t.Skip()
+	}
+	c, err := LoadCase(path)
+	if err != nil {
+		t.Fatal(err)
+	}
+	fmt.Println(c.Short())
+	if os.Getenv("VERIF_TRACE") != "" {
+		tr := Run(c, RunOpts{})
+		for i, op := range c.Ops {
+			fmt.Printf("%d %s => %s %v\n", i, op.Short(), tr.Ops[i].Class, tr.Ops[i].Err)
+			for _, e := range tr.Events(i) {
+				if e.Kind == EvEnter {
+					var as []string
+					for _, a := range e.Args {
+						as = append(as, tr.RT.ProvString(a))
+					}
+					fmt.Printf("      enter f%d#%d %v\n", e.Fn, e.Exec, as)
+				} else if e.Kind == EvExit {
+					fmt.Printf("      exit  f%d#%d outcome=%d\n", e.Fn, e.Exec, e.Outcome)
+				} else {
+					fmt.Printf("      cb    f%d %s err=%v rt=%v\n", e.Fn, e.CBName, e.CBErr, e.CBRuntime)
+				}
+			}
+		}
+	}
+}
